@@ -1,1 +1,32 @@
-// harness bodies compiled inside quinn-proto/src/constant_time.rs (feature __verif-hooks)
+// Harness bodies for quinn-proto/src/constant_time.rs.
+
+/// C04 / C14: constant-time comparison is exactly byte-string equality, for all 16-byte pairs
+/// (the stateless-reset-token size) and for slices of different lengths.
+pub fn eq_is_equality(a: [u8; 16], b: [u8; 16], la: usize, lb: usize) -> u32 {
+    if la > 16 || lb > 16 {
+        return 0;
+    }
+    let got = eq(&a[..la], &b[..lb]);
+    let mut same = la == lb;
+    let mut i = 0;
+    while i < 16 {
+        if i < la && i < lb && a[i] != b[i] {
+            same = false;
+        }
+        i += 1;
+    }
+    assert!(got == same);
+    // ResetToken equality goes through the same primitive
+    let ta = crate::token::ResetToken::from(a);
+    let tb = crate::token::ResetToken::from(b);
+    let mut all = true;
+    let mut i = 0;
+    while i < 16 {
+        if a[i] != b[i] {
+            all = false;
+        }
+        i += 1;
+    }
+    assert!((ta == tb) == all);
+    if got { 1 } else { 2 }
+}
